@@ -84,16 +84,22 @@ def _gen(ctx, num):
             c = dict(CFG)
             c["sel"] = sel
             behs.append({"cfg": c, "steps": b})
-    # hand-picked schedule classes the simulator reaches only rarely (still validated by TLC like the others)
+    # hand-picked deterministic schedule classes, first in the list so that they are the preferred witnesses
+    # (random schedules that hit the same class through a select race reproduce less reliably)
     st = lambda *a: [({"a": x} if isinstance(x, str) else x) for x in a]
-    c0 = dict(CFG, sel="stateless")
-    behs.append({"cfg": c0, "steps": st("take", "send_ok", "tick", "take", {"a": "result", "k": "nr"},
-                                        {"a": "send_err", "e": "err"}, "take", "send_ok", "take")})
-    behs.append({"cfg": dict(CFG, sel="stateless", tp=True), "steps": st("take", "send_ok", "tick", "take", "timeout", "take")})
-    behs.append({"cfg": dict(CFG, sel="stateless", maxRetries=10, sendAttempts=3),
-                 "steps": st("take", "send_ok", {"a": "result", "k": "ne"}, "take", "send_ok", {"a": "result", "k": "ne"},
-                             "take", "send_ok", {"a": "result", "k": "ne"}, "settle", "take")})
-    return behs
+    res = lambda k: {"a": "result", "k": k}
+    hand = [
+        # F22 witness; a second relay stays in flight so that validateReturnCondition cannot end the relay first
+        {"cfg": dict(CFG, sel="stateless"), "steps": st("take", "send_ok", "tick", "take", "send_ok", "tick", "take", res("nr"), "settle",
+                                                        {"a": "send_err", "e": "err"}, "take", "send_ok", "take")},
+        {"cfg": dict(CFG, sel="stateful"), "steps": st("take", "send_ok", res("ne"), "take", "send_ok", "take")},
+        {"cfg": dict(CFG, sel="cv"), "steps": st("take", "send_ok", res("ne"), "take", "send_ok", "take")},
+        {"cfg": dict(CFG, sel="stateless"), "steps": st("take", "send_ok", res("ok"), "take", "tick", "take")},
+        {"cfg": dict(CFG, sel="stateless", tp=True), "steps": st("take", "send_ok", "tick", "take", "timeout", "take")},
+        {"cfg": dict(CFG, sel="stateless", maxRetries=10, sendAttempts=3),
+         "steps": st("take", "send_ok", res("ne"), "take", "send_ok", res("ne"), "take", "send_ok", res("ne"), "settle", "take")},
+    ]
+    return hand + behs
 
 
 def _validate(ctx, behs, tag):
